@@ -105,6 +105,17 @@ func (t *tlv) child(tag int) *tlv {
 	return nil
 }
 
+// leafOf descends through wrappers to the first primitive element.
+func leafOf(t *tlv) *tlv {
+	for t != nil && t.Constructed {
+		if len(t.Children) == 0 {
+			return nil
+		}
+		t = t.Children[0]
+	}
+	return t
+}
+
 func berInt(b []byte) int64 {
 	if len(b) == 0 {
 		return 0
@@ -137,6 +148,11 @@ type cdrRecord struct {
 	HasSubscriber  bool
 	ConsumerName   string
 	HasConsumer    bool
+	ConsumerV4     string // text of the networkFunctionIPv4Address alternative, "" if absent
+	ConsumerV4Alt  int    // CHOICE alternative found in that field (2 = iPTextV4Address)
+	ConsumerV6     string
+	ConsumerV6Alt  int // 3 = iPTextV6Address
+	ConsumerFqdn   string
 	Functionality  int64
 	OpeningTime    []byte
 	Cause          int64
@@ -180,6 +196,21 @@ func decodeCHFRecord(payload []byte) (*cdrRecord, error) {
 		}
 		if c := s.child(1); c != nil {
 			r.ConsumerName, r.HasConsumer = string(c.Content), true
+		}
+		if c := s.child(2); c != nil {
+			if l := leafOf(c); l != nil {
+				r.ConsumerV4, r.ConsumerV4Alt = string(l.Content), l.Tag
+			}
+		}
+		if c := s.child(4); c != nil {
+			if l := leafOf(c); l != nil {
+				r.ConsumerV6, r.ConsumerV6Alt = string(l.Content), l.Tag
+			}
+		}
+		if c := s.child(5); c != nil {
+			if l := leafOf(c); l != nil {
+				r.ConsumerFqdn = string(l.Content)
+			}
 		}
 	}
 	if s := top.child(5); s != nil {
